@@ -1,10 +1,11 @@
 (* Extract.v — extraction of the message codec model (group "msg") to OCaml.
    Only ExtrOcamlBasic's directives are used.  Numbers and bytes stay inductive. *)
-(* deps: MsgModel.vo *)
+(* deps: MsgModel.vo MsgClientModel.vo *)
 Require Extraction.
 Require Import ExtrOcamlBasic.
-From MV Require Import Bytes MsgModel.
+From MV Require Import Bytes MsgModel MsgClientModel.
 Extraction Language OCaml.
 Extraction "model.ml"
   b2n n2b
-  msg0 setn setb send recv msg_unpack job_exec to_int msg_length type_of_code.
+  msg0 setn setb send recv msg_unpack job_exec to_int msg_length type_of_code
+  client_decode client_encode enc_req.
